@@ -238,6 +238,26 @@ def rust_stub_own(text, iface):
     return rows
 
 
+def rust_skel_slots(text):
+    """per match arm of the Rust skeleton: {method: sorted list of argument slots the arm touches}
+    (args[i] and args[a..b])"""
+    m = re.search(r"unsafe extern \"C\" fn invoke\((.*?)\n\}\n", text, re.S)
+    out = {}
+    if m:
+        parts = re.split(r"\n        (\d+) => \{", m.group(1))
+        for k in range(1, len(parts), 2):
+            body = parts[k + 1].split("\n        crate::object::OP_RELEASE")[0]
+            call = re.search(r"\|mut cx\|\s*\{?\s*cx\s*\.\s*(r#\w+|\w+)\(", body)
+            if not call:
+                continue
+            used = []
+            for a, b in re.findall(r"args\[(\d+)\.\.(\d+)\]", body):
+                used += list(range(int(a), int(b)))
+            used += [int(x) for x in re.findall(r"args\[(\d+)\]", body)]
+            out[unraw(call.group(1))] = sorted(set(used))
+    return out
+
+
 def rust_skel(text):
     """match arms of `unsafe extern "C" fn invoke`: [(op, method, counts)]"""
     m = re.search(r"unsafe extern \"C\" fn invoke\((.*?)\n\}\n", text, re.S)
